@@ -97,6 +97,8 @@ class GF:
             table = [x.v for x in container.items]
         elif isinstance(container, K) and isinstance(container.v, (list, tuple)) and all(isinstance(x, int) for x in container.v):
             table = list(container.v)
+        elif isinstance(container, K) and isinstance(container.v, (bytes, bytearray)):
+            table = list(container.v)           # a table of byte values
         else:
             return None
         key = id(container)
@@ -220,9 +222,37 @@ def builtin_hook(it):
                 for j in range(8):
                     bits[8 * pos + j] = frozenset([f'b{8 * (s.lo + i) + j}'])
             return wrap(C.Vec(bits))
+        if name in ('bytes', 'bytearray') and len(args) == 1 and isinstance(args[0], ListV) and args[0].items and \
+                any(isinstance(x, GF) for x in args[0].items) and all(as_vec(x) is not None for x in args[0].items):
+            # bytes((hi, lo)): every item one byte value, first item first
+            C = _c18()
+            acc = C.Vec.const(0)
+            for x in args[0].items:
+                v_ = as_vec(x)
+                if v_.width() > 8:
+                    raise RaiseEx('ValueError', 'bytes must be in range(0, 256)')
+                acc = acc.shl(8).xor(v_)
+            return GFBytes(acc, len(args[0].items), 'big')
         if name == 'type' and len(args) == 1 and isinstance(args[0], SymBytes):
             from .values import Builtin
             return Builtin(args[0].kind)
+        return None
+    return hook
+
+
+def ext_hook(it):
+    """library calls on affine integers: struct.pack of one unsigned integer is its bytes in the format's byte order"""
+    sizes = {'B': 1, 'H': 2, 'I': 4, 'L': 4, 'Q': 8}
+
+    def hook(dotted, args, kw, n):
+        if dotted == 'struct.pack' and len(args) == 2 and isinstance(args[0], K) and isinstance(args[0].v, (str, bytes)) and isinstance(args[1], GF):
+            fmt = args[0].v if isinstance(args[0].v, str) else args[0].v.decode()
+            if len(fmt) == 2 and fmt[0] in '<>!' and fmt[1] in sizes:
+                nb = sizes[fmt[1]]
+                if args[1].vec.width() > 8 * nb:
+                    raise RaiseEx('error', f'struct.error: argument out of range for {fmt!r}')
+                return GFBytes(args[1].vec, nb, 'little' if fmt[0] == '<' else 'big')
+            raise Fail(f'struct.pack({fmt!r}) of a data-dependent integer')
         return None
     return hook
 
